@@ -90,12 +90,16 @@ pub enum Oct {
     Plus = 1,
     Minus = 2,
     Both = 3,
+    /// a blank: the display character is ASCII white space
+    Blank = 0x10,
+    /// displayed as a digit; its code is the ASCII code of another symbol's letter
+    Zero = 0x61,
     Unknown = 0x80,
     A = 0xC1,
     Z = 0xFF,
 }
 
-const OCT: [(Oct, u8); 6] = [(Oct::Plus, b'+'), (Oct::Minus, b'-'), (Oct::Both, b'B'), (Oct::Unknown, b'?'), (Oct::A, b'a'), (Oct::Z, b'Z')];
+const OCT: [(Oct, u8); 8] = [(Oct::Plus, b'+'), (Oct::Minus, b'-'), (Oct::Both, b'B'), (Oct::Blank, b' '), (Oct::Zero, b'0'), (Oct::Unknown, b'?'), (Oct::A, b'a'), (Oct::Z, b'Z')];
 
 impl Codec for Oct {
     const BITS: u8 = 8;
@@ -232,5 +236,75 @@ impl Codec for Sept {
     }
     fn items() -> impl Iterator<Item = Self> {
         SEPT.iter().map(|s| s.0).collect::<Vec<_>>().into_iter()
+    }
+}
+
+/// User-defined soft-masked alphabets of the same widths as the built-in ones (5 and 4 bits) but with
+/// another layout: the case flag is bit 0. `W` is the width. The generic `Seq<A>: MaskableMut` must
+/// serve them and the built-in codecs side by side, whichever is used first in a process.
+#[derive(Clone, Copy, Debug, PartialEq, Eq, Hash, PartialOrd, Ord)]
+pub struct Soft<const W: u8>(pub u8);
+
+const SOFT_UPPER: [u8; 7] = [b'A', b'C', b'G', b'T', b'N', b'R', b'Y'];
+
+impl<const W: u8> Soft<W> {
+    fn letters() -> usize {
+        if W == 5 {
+            7
+        } else {
+            5
+        }
+    }
+}
+
+impl<const W: u8> Codec for Soft<W> {
+    const BITS: u8 = W;
+    fn unsafe_from_bits(b: u8) -> Self {
+        Self::try_from_bits(b).unwrap_or_else(|| panic!("Unrecognised bit pattern: {b:08b}"))
+    }
+    fn try_from_bits(b: u8) -> Option<Self> {
+        // code = letter index * 2 + flag; the gap is the last even code and has no lower case
+        let gap = (Self::letters() as u8) * 2;
+        if b < gap || b == gap {
+            Some(Soft(b))
+        } else {
+            None
+        }
+    }
+    fn unsafe_from_ascii(c: u8) -> Self {
+        Self::try_from_ascii(c).unwrap_or_else(|| panic!("Unrecognised character: {c:#04X?}"))
+    }
+    fn try_from_ascii(c: u8) -> Option<Self> {
+        if c == b'-' {
+            return Some(Soft((Self::letters() as u8) * 2));
+        }
+        let up = c.to_ascii_uppercase();
+        SOFT_UPPER[..Self::letters()].iter().position(|x| *x == up).map(|i| Soft(i as u8 * 2 + u8::from(c != up)))
+    }
+    fn to_char(self) -> char {
+        if self.0 == (Self::letters() as u8) * 2 {
+            return '-';
+        }
+        let c = SOFT_UPPER[(self.0 / 2) as usize];
+        (if self.0 & 1 == 1 { c.to_ascii_lowercase() } else { c }) as char
+    }
+    fn to_bits(self) -> u8 {
+        self.0
+    }
+    fn items() -> impl Iterator<Item = Self> {
+        (0..=(Self::letters() as u8) * 2).map(Soft)
+    }
+}
+
+impl<const W: u8> bio_seq::MaskableMut for Soft<W> {
+    fn mask(&mut self) {
+        if self.0 != (Self::letters() as u8) * 2 {
+            self.0 |= 1;
+        }
+    }
+    fn unmask(&mut self) {
+        if self.0 != (Self::letters() as u8) * 2 {
+            self.0 &= !1;
+        }
     }
 }
